@@ -9,6 +9,8 @@ import common
 
 BUILTIN = [
     'x := input("name: ")\nprint(x)\n',
+    's := `line one\nline two`\nt := "a\\tb"\nprint(len(s), s, t)\nif s == `line one\nline two` {\n\tprint("same")\n}\n',
+    '@printf("%s|", "(a)", "b;c", "d&e", "<f>", "g|h", "*", "~", "#x", "i j", "")\n',
     'write("out.txt", "hello")\nwrite("out.txt", "more", true)\ns := read("out.txt")\nprint(s, exists("out.txt"))\n',
     'stdout, stderr, code := @ls("-l") | @grep("x")\nprint(stdout, code)\n@echo("hi")\n',
     'import "strings"\nprint(strings.Repeat("ab", 3))\n',
